@@ -159,6 +159,7 @@ func runC10InBubble(c c10Case) (out kit.Outcome) {
 		}
 	}
 	trace := append([]string(nil), sc.Trace...)
+	outstanding, _ := w.outstanding() // tokens granted to a caller and not completed
 	var viol *kit.Outcome
 	switch {
 	case elapsed != 0:
@@ -169,6 +170,10 @@ func runC10InBubble(c c10Case) (out kit.Outcome) {
 		viol = &o
 	case busy > limit:
 		o := kit.Viol(kind+":over-limit", "%d tokens are held at once (limit %d): %d waiters were granted although only %d holder(s) released; spawn order %v; points %v", busy, limit, granted, h, order, trace)
+		viol = &o
+	case blocked > 0 && busy > outstanding:
+		o := kit.Viol(kind+":capacity-lost", "at quiescence with no time elapsed: %d waiter(s) still blocked, the limiter counts %d unit(s) busy but only %d token(s) are held by anybody (the released capacity went to nobody); %d holder(s) released, %d waiter(s) granted; spawn order %v; points %v",
+			blocked, busy, outstanding, h, granted, order, trace)
 		viol = &o
 	case busy < limit && blocked > 0:
 		o := kit.Viol(kind+":lost-wakeup", "at quiescence with no time elapsed: %d of %d units free (busy=%d) yet %d waiter(s) still blocked (%d granted); %d holder(s) released; spawn order %v; points %v",
